@@ -401,7 +401,24 @@ fn run_op(ctx: &Ctx, line: &str) -> String {
                 with_cache("g", &toks[1..])
             )
         }
-        "U" => or_panic(guarded(|| format!("u={}", hex(pm.uuid().as_bytes())))),
+        "U" => or_panic(guarded(|| {
+            let u = pm.uuid();
+            // history / address independence: a buffer that held other bytes of the same length before
+            // (a reused read buffer, an in-place edit) gets the identifier of its current content
+            let inplace = if ctx.mapping.is_empty() || ctx.mapping.len() > (1 << 18) {
+                true
+            } else {
+                let mut other = ctx.mapping.to_vec();
+                let k = other.len() / 2;
+                other[k] ^= 0x20;
+                let mut buf = OffsetBuf::new(&other, ctx.mapping.len() % 8);
+                let u_other = ProguardMapping::new(buf.bytes()).uuid();
+                buf.overwrite(ctx.mapping);
+                let u_same = ProguardMapping::new(buf.bytes()).uuid();
+                u_same == u && u_other != u
+            };
+            format!("u={};inplace={}", hex(u.as_bytes()), inplace as u8)
+        })),
         "US" => or_panic(guarded(|| {
             // history: hash the parent first, then the section taken from it, then the parent again
             let (a, b): (usize, usize) = (toks[1].parse().expect("start"), toks[2].parse().expect("end"));
@@ -424,7 +441,15 @@ fn run_op(ctx: &Ctx, line: &str) -> String {
                         None => "PANIC".into(),
                     },
                 };
-                format!("w={};test={}", hex(a.bytes()), test)
+                // the same mapping bytes at every address modulo 8 give the same cache bytes
+                let al = ctx.mapping.len() > (1 << 16)
+                    || (0..8).all(|off| {
+                        let ob = OffsetBuf::new(ctx.mapping, off);
+                        let pm2 = ProguardMapping::new(ob.bytes());
+                        let mut buf = Vec::new();
+                        matches!(guarded(|| ProguardCache::write(&pm2, &mut buf).is_ok()), Some(true)) && buf == a.bytes()
+                    });
+                format!("w={};test={};al={}", hex(a.bytes()), test, al as u8)
             }
         },
         _ => format!("UNKNOWN-OP {}", toks[0]),
@@ -753,11 +778,14 @@ pub fn run_cases(input: &str) -> Vec<String> {
     let lines: Vec<&str> = input.lines().collect();
     let mut out = Vec::with_capacity(lines.len());
     let mut i = 0;
-    let mut cur: Vec<u8> = Vec::new();
+    // every mapping is placed at a different address modulo 8 (the model knows no addresses)
+    let mut cur = OffsetBuf::new(&[], 0);
+    let mut nmappings = 0usize;
     while i < lines.len() {
         let l = lines[i];
         if let Some(h) = l.strip_prefix("M ") {
-            cur = unhex(h.split(' ').next().unwrap_or("x"));
+            cur = OffsetBuf::new(&unhex(h.split(' ').next().unwrap_or("x")), nmappings);
+            nmappings += 1;
             out.push("M".to_string());
             i += 1;
         } else if is_group_op(l) {
@@ -765,7 +793,7 @@ pub fn run_cases(input: &str) -> Vec<String> {
             while j < lines.len() && is_group_op(lines[j]) {
                 j += 1;
             }
-            run_mapping_ops(&cur, &lines[i..j], &mut out);
+            run_mapping_ops(cur.bytes(), &lines[i..j], &mut out);
             i = j;
         } else if let Some(h) = l.strip_prefix("X ") {
             let buf = unhex(h.split(' ').next().unwrap_or("x"));
